@@ -188,14 +188,23 @@ static inline int inc_decrypt_alg(int alg, const Bytes &key, const Bytes &nonce,
 static inline Bytes masked_encrypt(int alg, const Bytes &key, const Bytes &nonce, const Bytes &ad, const Bytes &pt, size_t *clen_out = nullptr) {
     Buf k(key), n(nonce), a(ad), m(pt), c(pt.size() + 16);
     size_t clen = (size_t)-7;
+    // a key object lives across packets and refreshes: depending on the case, the key is re-randomised first
+    // and / or has already served another packet (the associated data sent as a message of its own)
+    unsigned hist = key.size() > 1 ? key[1] : 0;
+    Buf c0(ad.size() + 16);
+    size_t clen0 = 0;
     if (alg == 2) {
         ascon_masked_key_160_t mk;
         ascon_masked_key_160_init(&mk, k.p);
+        if (hist & 2) ascon80pq_masked_aead_encrypt(c0.p, &clen0, a.p, a.n, nullptr, 0, n.p, &mk);
+        if (hist & 1) ascon_masked_key_160_randomize(&mk);
         ascon80pq_masked_aead_encrypt(c.p, &clen, m.p, m.n, a.p, a.n, n.p, &mk);
         ascon_masked_key_160_free(&mk);
     } else {
         ascon_masked_key_128_t mk;
         ascon_masked_key_128_init(&mk, k.p);
+        if (hist & 2) { if (alg == 0) ascon128_masked_aead_encrypt(c0.p, &clen0, a.p, a.n, nullptr, 0, n.p, &mk); else ascon128a_masked_aead_encrypt(c0.p, &clen0, a.p, a.n, nullptr, 0, n.p, &mk); }
+        if (hist & 1) ascon_masked_key_128_randomize(&mk);
         if (alg == 0) ascon128_masked_aead_encrypt(c.p, &clen, m.p, m.n, a.p, a.n, n.p, &mk);
         else ascon128a_masked_aead_encrypt(c.p, &clen, m.p, m.n, a.p, a.n, n.p, &mk);
         ascon_masked_key_128_free(&mk);
